@@ -75,6 +75,19 @@ class PX(P):
             e = '(w%d %s)' % (self.narrow[v], e)
         return v, e
 
+    def expect_any(self, texts):
+        """one of several equivalent token sequences (independent statements in either order)"""
+        start = self.i
+        err = None
+        for text in texts:
+            self.i = start
+            try:
+                self.expect(text)
+                return
+            except Unsupported as e:
+                err = e
+        raise err
+
     def expect(self, text):
         for t in tokenize(text):
             g = self.eat()
@@ -127,11 +140,11 @@ def translate(utilh, utilc):
         raise Unsupported('crc32c_gen_plain: preprocessor line')
     p = PX(tokenize(body), 32, ['crc'], 'crc32c_gen_plain', bytes_={'ptr': 'p%d'}, tables=TABLES, deref={'ptr': 'c'})
     p.expect('while ( size >= 4 ) {')
-    st4 = p.statements_until(lambda q: q.at('id', 'ptr'))
-    p.expect('ptr += 4 ; size -= 4 ; }')
+    st4 = p.statements_until(lambda q: q.at('id', 'ptr') or q.at('id', 'size'))
+    p.expect_any(['ptr += 4 ; size -= 4 ; }', 'size -= 4 ; ptr += 4 ; }'])
     p.expect('while ( size ) {')
-    st1 = p.statements_until(lambda q: q.at('op', '++'))
-    p.expect('++ ptr ; -- size ; }')
+    st1 = p.statements_until(lambda q: q.at('op', '++') or q.at('op', '--'))
+    p.expect_any(['++ ptr ; -- size ; }', '-- size ; ++ ptr ; }'])
     p.expect('return crc ;')
     if p.peek()[0] != 'eof':
         raise Unsupported('crc32c_gen_plain: trailing tokens')
